@@ -112,6 +112,13 @@ def delegation(ctx, rule, only=None):
             r = [M.render(M.peel(x, transparent=False)) for x in a]
             ok = len(r) >= len(wargs) and all(re.match(w, x) for w, x in zip(wargs, r))
             ctx.ob(rule, short + ":arguments-of-" + wc.split("::")[-1], ok, f.loc(bb), "%s(%s)" % (wc.split("::")[-1], ", ".join(x[:120] for x in r)), f)
+        if short == "Address for Predicate":
+            # the zero address is the fallback for exactly the predicates that cannot be encoded
+            rows = sorted((v, at) for _, v, at in M.return_table(prog, f))
+            E_ = "essential_types::predicate::Predicate::encode(self)"
+            want_rows = sorted([("essential_types::ContentAddress::ContentAddress{essential_hash::hash_bytes(std::iter::Iterator::collect((%s as Ok).0))}" % E_, ["is:Ok(%s)" % E_]),
+                                ("essential_types::ContentAddress::ContentAddress{repeat{0}}", ["is:Err(%s)" % E_])])
+            ctx.ob(rule, short + ":hash-of-the-encoding-iff-encodable", rows == want_rows, f.loc(0), "returns %s" % [(v[:70], [a[:60] for a in at]) for v, at in rows], f)
         # nothing edits the collection of addresses on its way to the hashing leaf
         muts = []
         for bb, c, a, t in calls(prog, f):
